@@ -134,10 +134,10 @@ def main(args):
                "(keywords per node, child keys via _contents / iteration / membership, total_errors, len, each error found at "
                "its path) and TLC judges it (Trace_C17); indexing of error-free existing elements is probed on fresh trees. "
                "Non-trivial: >= 2 errors; distinct by the arrival sequence." % (2 if quick else 3))
-    r = tlc.run("mc/MC_C17.tla", cfg="mc/MC_C17_%s.cfg" % args.tier, workers=16, timeout=3000)
+    r = tlc.run("mc/MC_C17.tla", cfg="mc/MC_C17_%s.cfg" % args.tier, workers=16, timeout=3000, coverage=True)
     if r.violation:
         raise tlc.MachineryFailure("ErrorTree model violated: " + r.violation)
-    ck.add_tlc(r)
+    ck.add_tlc(r, "MC_C17")
     VE = js.exceptions.ValidationError
     recs, real = [], {}
 
